@@ -67,6 +67,16 @@ func handleFiles(req *Req) *Resp {
 		resp.Out["panic"] = p + " @ " + st
 		return resp
 	}
+	// a Run on a text afterwards is a search in memory: whatever mode the files were run in, it touches no file
+	// (working directory = the case's directory, so that a stray file would be seen below)
+	if old, e := os.Getwd(); e == nil && os.Chdir(dir) == nil {
+		_, p2, st2, _, _ := runSafe(v, "ab abc\nba", 0)
+		os.Chdir(old)
+		if p2 != "" {
+			resp.Out["panic"] = "Run(text) after RunFiles: " + p2 + " @ " + st2
+			return resp
+		}
+	}
 	var fsl []Node
 	filepath.Walk(dir, func(p string, info os.FileInfo, err error) error {
 		if err != nil || info.IsDir() {
